@@ -234,6 +234,7 @@ def run(tier):
         'error boundary is probed at m = max-1, max, max+1 (m = max forces the dense path).')
     run.bounds = ['X: (k,n) in (1,1),(1,2),(2,2),(1,3),(2,3) and all degenerate k=0 / k>n with n<=2; m<=2(3); <=1 planted assignment; 5-10 non-trivial draws per run',
                   'S: k<=3, n<=%d, m in {0,1,max/2,max-1,max,max+1,max+5} (all m when max<=6), <=2 planted assignments, seeds %s plus five deterministic adversarial draw streams (zeros, big, alt, count, mix) that force the dense fallback' % ((4, '0,1') if tier == 'quick' else (5, '0,1,2,3,7,11'))]
+    run.bounds += ['planted assignments given as list/tuple/set/frozenset, in variable order or reversed, collected in a list, tuple, dict-values view or set', 'S cases carry the calls their process made before; the replay repeats them when a fresh process does not show the behaviour']
     run.outside = ['runs needing more draws than the tape bound (long streaks of rejected samples) are cut', 'all seeds of the real Mersenne Twister', 'k>3']
     run.assumptions = ['RNG stub contract (sample = any k-subset in any order, choice = any element, randint = any value)']
     T = 300 if tier == 'quick' else 1200
